@@ -39,7 +39,7 @@ def ifaceNameOK (n : In) : Bool :=
   | _ => false
 
 /-- comment text the parser can produce: no line break, no leading blank -/
-def commentOK (c : In) : Bool := !c.contains 10 && (match c with | 32 :: _ => false | 9 :: _ => false | _ => true)
+def commentOK (c : In) : Bool := !c.contains 10 && !c.contains 13 && (match c with | 32 :: _ => false | 9 :: _ => false | _ => true)
 
 mutual
 def tyOK : Ty → Bool
@@ -78,7 +78,7 @@ def tokens : Nat → In → In → List In → List In
   | n+1, c :: t, cur, acc =>
     let flush := if cur.isEmpty then acc else cur.reverse :: acc
     if c == 35 then
-      let body := (t.takeWhile (· != 10))
+      let body := (t.takeWhile (fun x => x != 10 && x != 13))
       let body' := body.dropWhile (fun x => x == 32 || x == 9)
       tokens n (t.drop body.length) [] ((35 :: body') :: flush)
     else if isIdent c then tokens n t (c :: cur) acc
